@@ -288,7 +288,13 @@ let xcg_main () =
           (match SL.find_opt (fun q -> ocaml_string q.XAst.pname = pname) p.XAst.procs with
            | None -> print_endline "none"
            | Some q ->
-               (match XCodegenStmt.cproc gaddr pool q (zi size) (zi og) with
+               let pinfo (x : String.string) =
+                 let nm = ocaml_string x in
+                 let rec find i = function
+                   | [] -> None
+                   | r :: rest -> if ocaml_string r.XAst.pname = nm then Some { XCodegenStmt.pf_entry = zi (100000 + i); pf_isfunc = r.XAst.is_func } else find (i + 1) rest in
+                 find 0 p.XAst.procs in
+               (match XCodegenStmt.cproc pinfo gaddr pool q (zi size) (zi og) with
                 | Some code -> print_endline (SS.concat "; " (SL.map instr_str code))
                 | None -> print_endline "none"))
       | _, [] -> ()
